@@ -105,6 +105,18 @@ CHECKS["C12"] = dict(
     technique="Coq two-run (non-interference) proof + model/implementation correspondence + two-run diff on the implementation",
     ref="5/C12")
 
+CHECKS["C14"] = dict(
+    text="Machine-checked invariant proof (Coq) over the model of the inv handlers, per-connection trackers and tracker "
+         "checks sharing one mempool: on every interleaving of atomic steps of any number of connections the monitor "
+         "never objects (no getdata while the body is held, no second getdata within the 3 s window to any peer, an "
+         "announced unheld tx without active request is requested, a tracking connection re-requests at its next check "
+         "after the window expired, confirmed txs are forgotten by every tracker). Correspondence runs a real Node and "
+         "real UntrustedNode objects (real handleMessage / check / CleanupBlock) on the same interleavings.",
+    note="Trusted: Coq kernel; models Tracker.v/MemPool.v validated by correspondence; steps atomic under the mempool / "
+         "tracker mutexes; 'next activity' is a runtime liveness; bodies have >= 1 input.",
+    technique="Coq invariant proof + model/implementation correspondence + trace monitor",
+    ref="5/C14")
+
 NOT_APPLICABLE = {}
 
 
